@@ -6,7 +6,7 @@ from common import sh2
 LEVEL = "proof"
 # further theorem files (HEVC); each is rebuilt, re-checked and axiom-audited like C15Theorems.v
 EXTRA_THEOREM_FILES = ["C15HevcTheorems.v", "C15HevcSliceTheorems.v", "C15HevcConfTheorems.v", "C15InitTheorems.v",
-                       "C15TieTheorems.v", "C15Hevc2Theorems.v", "C15Avc2Theorems.v"]
+                       "C15TieTheorems.v", "C15Hevc2Theorems.v", "C15Avc2Theorems.v", "C15HypTheorems.v"]
 MANIFEST = {
     "technique": "Coq proof (parser model applied to an independent serialiser of the standard's syntax; relational program "
                  "logic tying the instance over the C13 machine model of bits.EBSPReader to the ideal bit-list reader) + "
@@ -177,6 +177,24 @@ def run(ctx):
     lines = obs.splitlines()
     res = run_model_parallel(model, lines)
     mism = [l for l in res if not l.startswith("OK ")]
+    # round 4: the reader ties' hypotheses (extracted C15HypModel.hyp_tie_raw / hyp_*_narrow / hyp_hsps_depths_ok)
+    # evaluated by the driver on the NAL unit of every case of a kind that has a tie theorem
+    tie = {}
+    for l, v in zip(lines, res):
+        if v.startswith("OK ") and " tie=" in v:
+            p = l.split("\t")
+            k = p[0] + ("" if len(p) > 5 and p[5] != "-" else "-mutated")
+            t = tie.setdefault(k, {"hold": 0, "do_not_hold": 0, "model_out_of_fuel": 0})
+            t[{"1": "hold", "0": "do_not_hold"}.get(v.rsplit("tie=", 1)[1].strip(), "model_out_of_fuel")] += 1
+    ctx.cov["theorem_hypotheses_evaluated"] = {
+        "theorems": "C15_tie_applies (= C15_reader_tie_* on the bytes the Go parser was given; coq/c15/C15HypTheorems.v)",
+        "hold = hyp_tie_raw nalu (bytes < 256, no run of more than 56 zero bits after removal of the emulation-prevention "
+        "bytes, canonical escaping) && narrow parameter sets in the maps of the case (HSPS: && br = Ok s with depths within "
+        "the accumulator); on every such case the conclusion er = br was compared as well": tie,
+        "cases_hold": sum(t["hold"] for t in tie.values()),
+        "cases_do_not_hold": sum(t["do_not_hold"] for t in tie.values())}
+    ctx.log("tie hypotheses: hold on %d cases, do not hold on %d (explored by correspondence only)" % (
+        ctx.cov["theorem_hypotheses_evaluated"]["cases_hold"], ctx.cov["theorem_hypotheses_evaluated"]["cases_do_not_hold"]))
     distinct = len(set(l.split("\t")[3] for l in lines if l.count("\t") >= 7))
     captured = sum(1 for l in lines if l.split("\t")[1].startswith("c"))
     ctx.cov["evaluations"] += len(lines)
